@@ -367,8 +367,9 @@ func (r *rwRT) ruleOptWhitelist(s *seqRT) {
 					switch {
 					case isFn:
 						// any expression of function type is fine here only if it is itself effect-free; generated code always passes a func literal
-					case strings.HasPrefix(pe.Op, "MkPattern[BasicLitPattern]"):
-						// literal only
+					case strings.HasPrefix(pe.Op, "MkPattern[BasicLitPattern]"), strings.HasPrefix(pe.Op, "Wildcard[BasicLitPattern]"):
+						// literal only: a pattern of the basic-literal pattern type matches *ast.BasicLit nodes only, whatever
+						// its predicate (the library's Wildcard[T] is MkPattern[T] with a constant-true predicate)
 					default:
 						good = false
 						why = fmt.Sprintf("value parameter %s is matched by %s, which accepts more than basic literals: the yielded expression would be evaluated early (when the enclosing Seq is built) and only once", sig.Params().At(i).Name(), st.Render(a))
@@ -823,6 +824,7 @@ func (r *rwRT) ruleOptOrder() {
 	// is driven, in order, over two different files (what VisitAllFiles does). A question about a file ("does it
 	// use seq") is answered the same way every time it is asked on one path.
 	in := r.interp(rwConfig{root: fn, boundaries: map[string]bool{"optimizeDelayCall": true, "etaReduction": true, "optimizeBindCall": true}})
+	in.MaxVisits = 12 // the passes of a file may be a table that is looped over
 	outs := in.Run(nil, fn, []AV{Sym{Name: "o", NN: true}, Sym{Name: "printer", NN: true}}, nil)
 	r.account(in)
 	var visits []AV
@@ -921,6 +923,9 @@ func (r *rwRT) ruleOptOrder() {
 		var seq []step
 		li := 0
 		for _, e := range st.Events[len(base.Events):] {
+			if os.Getenv("VERIF_DEBUG_ORDER") != "" {
+				fmt.Fprintf(os.Stderr, "ORDER %s %s callee=%v note=%s\n", e.Kind, e.Name(), e.Callee, e.Note)
+			}
 			if e.Kind != "call" {
 				continue
 			}
